@@ -199,6 +199,25 @@ def run(prog, chk):
                         outside = [x[1] for x in d.of(loc) if x[1] not in comp_loop]
                         if outside:
                             carried = (eb.local_name(loc) or "_%d" % loc, eb.blocks[outside[0]].term.line)
+        # "the pattern starts with a dot" is a statement about its first piece: an `any` over the pieces also accepts a dot at the start of
+        # a later piece (`*".txt"` would match `.hidden.txt`)
+        any_over_pieces = None
+        for bb_, t_ in eb.calls():
+            cal_ = t_.best_callee() or t_.callee or ""
+            if cal_.endswith(("Iterator::any", "Iterator>::any")) and t_.args:
+                from dataflow import flow_back as _fb
+                if any("pieces" in f.field_path() for f in _fb(eb, d, t_.args[0], all_args=False)):
+                    # is this any() the source of the captured dot flag?  (its closure tests starts_with)
+                    for a in t_.args[1:]:
+                        for o in origins(eb, d, a):
+                            if o.kind == 'agg' and o.node.raw.get("ak") == "closure":
+                                cb_ = prog.body(canon(o.node.raw["def"]))
+                                if cb_ is not None and any((x.callee or "").endswith("starts_with") for _, x in cb_.calls()):
+                                    any_over_pieces = t_.line
+        if any_over_pieces:
+            chk.fail("R8.3", eb.name, "dot-test-over-all-pieces",
+                     "whether a path component asks for dot-files is decided with Iterator::any over all its pieces (line %s): a later piece that begins with a dot "
+                     "(`*\".txt\"`, `*\"$ext\"`) makes the component match hidden files" % any_over_pieces)
         if carried:
             chk.fail("R8.3", eb.name, "dot-policy-carried-across-components",
                      "the dot-file flag `%s` captured by the filter closure is also defined outside the loop over path components (line %s): what an earlier "
